@@ -396,6 +396,23 @@ fn observe(tree: &crate::Tree, reads: &[u64]) -> std::result::Result<Obs, String
 			let show = |l: &Vec<(Vec<u8>, u64, bool, Vec<u8>)>| l.iter().map(|e| format!("{}@{}", String::from_utf8_lossy(&e.0), e.1)).collect::<Vec<_>>();
 			fwd_bwd = Some(format!("history with timestamp window [{lo},{hi}]: the backward traversal lists {:?}, the forward traversal lists {:?}", show(&back), show(&out)));
 		}
+		// the same window with the LOWER BOUND ON THE KEY ITSELF (the cursor's first seek then lands inside the key's
+		// versions instead of before them) lists the same
+		let mut it = tx.history_with_options(b"k".to_vec(), b"z".to_vec(), &opts).map_err(|e| format!("history [{lo},{hi}] from k failed: {e}"))?;
+		let mut from_k = Vec::new();
+		let mut ok = it.seek_first().map_err(|e| format!("history seek failed: {e}"))?;
+		let mut guard = 0;
+		while ok && guard < 100 {
+			guard += 1;
+			let k = it.key();
+			from_k.push((k.user_key().to_vec(), k.timestamp(), k.is_tombstone(), if k.is_tombstone() { Vec::new() } else { it.value().map_err(|e| format!("history value failed: {e}"))? }));
+			ok = it.next().map_err(|e| format!("history step failed: {e}"))?;
+		}
+		let out_from_k: Vec<(Vec<u8>, u64, bool, Vec<u8>)> = out.iter().filter(|e| e.0.as_slice() >= b"k".as_slice()).cloned().collect();
+		if norm(&from_k) != norm(&out_from_k) && fwd_bwd.is_none() {
+			let show = |l: &Vec<(Vec<u8>, u64, bool, Vec<u8>)>| l.iter().map(|e| format!("{}@{}", String::from_utf8_lossy(&e.0), e.1)).collect::<Vec<_>>();
+			fwd_bwd = Some(format!("history with timestamp window [{lo},{hi}]: the listing of [k, z) is {:?}, the listing of [a, z) from k on is {:?}", show(&from_k), show(&out_from_k)));
+		}
 		lists.push(out);
 	}
 	// a plain point read AFTER the windowed history queries (whose blocks are cached under another key order) answers
